@@ -4,7 +4,7 @@ from __future__ import annotations
 import ast
 import os
 import re
-from typing import Optional
+from typing import Any, Optional
 
 from .. import rx
 from ..model import AnalysisError, ClassInfo, Const, CustomProp, FuncInfo, Program, dotted, norm, self_attr, walk_no_nested
@@ -398,14 +398,85 @@ def rule_esc_table(ctx: RuleContext, p: Program, g: rx.Grammar, rid: str) -> Non
         and norm(um.value) == norm(um.generators[0].target.elts[0]) and 'ESCAPE_MAP.items()' in norm(um.generators[0].iter)  # type: ignore[union-attr]
     ctx.check(ok, rid, site + ': unescape map', norm(um)[:100] if um else '', 'the unescape map is not the inverse of the escape map',
               c.where, note='{image: char for char, image in ESCAPE_MAP.items()}')
-    # escape() looks every match up in the map; unescape falls back to the character itself
-    esc = p.method(c, 'escape', inherited=False)
-    ok = any(isinstance(x, ast.Subscript) and 'ESCAPE_MAP' in norm(x.value) and 'group(0)' in norm(x.slice) for x in ast.walk(esc.node))
-    ctx.check(ok, rid, site + '.escape', 'map lookup of the matched character', 'escape() does not substitute map[match]', esc.where)
-    une = p.method(c, 'unescape', inherited=False)
-    ok = any(isinstance(x, ast.Call) and isinstance(x.func, ast.Attribute) and x.func.attr == 'get' and 'UNESCAPE_MAP' in norm(x.func.value)
-             and len(x.args) == 2 and norm(x.args[0]) == norm(x.args[1]) for x in ast.walk(une.node))
-    ctx.check(ok, rid, site + '.unescape', 'map lookup with identity fallback', 'unescape() does not fall back to the escaped character', une.where)
+    # escape() / unescape(): the replacement callable handed to re.sub, interpreted on a mock match for every image, every key and an
+    # unrelated character
+    for fn_name, direction in (('escape', 'esc'), ('unescape', 'unesc')):
+        fn = p.method(c, fn_name, inherited=False)
+        problem = _esc_callable_sem(p, c, fn, table, direction)
+        ctx.check(not problem, rid, f'{site}.{fn_name}', 'replacement callable agrees with the map' if not problem else problem,
+                  f'{fn_name}(): {problem}', fn.where, note='interpreted for every key / image and an unrelated character')
+
+
+def _esc_callable_sem(p: Program, c: ClassInfo, fn: FuncInfo, table: dict, direction: str) -> str:
+    from . import possem
+    from .tokenstore import TS
+    subs = [x for x in ast.walk(fn.node) if isinstance(x, ast.Call) and norm(x.func) == 're.sub' and len(x.args) >= 3]
+    if len(subs) != 1:
+        return 'does not make exactly one re.sub(pattern, replacement, s) call'
+    repl = subs[0].args[1]
+    inv = {v: k for k, v in table.items()}
+
+    class Interp(possem.PosInterp):
+        tag = 'ESC-TABLE'
+
+        def expr(self, e: Any, env: dict) -> Any:                 # type: ignore[override]
+            if isinstance(e, ast.Attribute) and isinstance(e.value, ast.Name) and e.value.id in ('cls', c.name):
+                if e.attr.endswith('UNESCAPE_MAP'):
+                    return dict(inv)
+                if e.attr.endswith('ESCAPE_MAP'):
+                    return dict(table)
+            if isinstance(e, ast.Call) and isinstance(e.func, ast.Attribute) and e.func.attr == 'group':
+                b = self.expr(e.func.value, env)
+                if isinstance(b, possem.Obj) and b.cls == 'Match':
+                    a = [self.expr(x, env) for x in e.args] or [0]
+                    return b.f['groups'][a[0]]
+            if isinstance(e, ast.Subscript) and not isinstance(e.slice, ast.Slice):
+                b = self.expr(e.value, env)
+                if isinstance(b, possem.Obj) and b.cls == 'Match':
+                    return b.f['groups'][self.expr(e.slice, env)]
+                if isinstance(b, dict):
+                    k = self.expr(e.slice, env)
+                    if k not in b:
+                        raise possem.Raised('KeyError')
+                    return b[k]
+            if isinstance(e, ast.BinOp) and isinstance(e.op, ast.Add):
+                l, r = self.expr(e.left, env), self.expr(e.right, env)
+                if isinstance(l, str) and isinstance(r, str):
+                    return l + r
+            if isinstance(e, ast.JoinedStr):
+                out = ''
+                for v in e.values:
+                    out += str(v.value) if isinstance(v, ast.Constant) else str(self.expr(v.value, env))
+                return out
+            return super().expr(e, env)
+
+    ts = TS(p)
+    local_defs = {d.name: d for d in ast.walk(fn.node) if isinstance(d, ast.FunctionDef) and d is not fn.node}
+    chars = sorted(set(table) | set(table.values()) | {'x'})
+    for ch in chars:
+        if direction == 'esc' and ch not in table:
+            continue              # escape() is only called on what the pattern matched (ESC-TABLE: default pattern subset of keys)
+        it = Interp(ts, [], module=c.module)
+        match = possem.Obj('Match', {'groups': {0: ch if direction == 'esc' else '\\' + ch, 1: ch}}, f'match {ch!r}')
+        try:
+            if isinstance(repl, ast.Lambda):
+                got = it.call_value(possem._Lambda(repl, {}), [match], {}, repl)
+            elif isinstance(repl, ast.Name) and repl.id in local_defs:
+                d = local_defs[repl.id]
+                en = {d.args.args[0].arg: match}
+                try:
+                    it.block([b for b in d.body if not (isinstance(b, ast.Expr) and isinstance(b.value, ast.Constant))], en)
+                    got = None
+                except possem._Return as r:
+                    got = r.v
+            else:
+                return f'the replacement `{norm(repl)[:50]}` is neither a lambda nor a local function'
+        except possem.Raised as ex:
+            return f'the replacement raises {ex} for {ch!r}'
+        want = ('\\' + table[ch]) if direction == 'esc' else inv.get(ch, ch)
+        if got != want:
+            return f'for {ch!r} the replacement gives {got!r}, the map says {want!r}' + (' (an escaped character outside the map stands for itself)' if direction == 'unesc' and ch not in inv else '')
+    return ''
 
 
 def rule_default_lit(ctx: RuleContext, p: Program, g: rx.Grammar, rid: str) -> None:
@@ -492,6 +563,7 @@ def run(ctx: RuleContext, p: Program) -> None:
     ctx.try_rule(rule_rawtext_cover, p, g, 'RAWTEXT-COVER')
     ctx.try_rule(rule_split_total, p, g, 'SPLIT-TOTAL')
     ctx.try_rule(rule_gram_eol, p, g, 'GRAM-EOL')
+    ctx.try_rule(rule_str_boundary, p, g, 'STR-BOUNDARY', 7 if ctx.tier == 'quick' else 9)
     ctx.not_decided += ['from_value(v).value == v for arbitrary string values', 'decimal value domain of Number (str(Decimal) may use '
                         'exponents; callers pass abs(value))', 'that produced text lexes as exactly one token in context']
     ctx.assumptions += ['frozen table of str.splitlines break characters', 'frozen strftime table for this platform (%Y unpadded '
@@ -667,3 +739,89 @@ def rule_gram_eol(ctx: RuleContext, p: Program, g: rx.Grammar, rid: str) -> None
                   f'is assigned', c.where, note=f'no lexeme of {tname} ends in {firsts!r}')
     if n < 10:
         raise AnalysisError(f'GRAM-EOL: only {n} value-bearing terminals examined')
+
+
+# ====================================================================== STR-BOUNDARY (added after seeded round 4)
+def rule_str_boundary(ctx: RuleContext, p: Program, g: rx.Grammar, rid: str, max_len: int = 7) -> None:
+    ctx.rule(rid, 'the string terminal stops where the written string stops: for every text f that EscapedString._format_value can write '
+                  '(quote, then characters other than quote / backslash or a backslash followed by an escape image, then quote) and every '
+                  'continuation w, the terminal -- evaluated with the backtracking priorities of the regex engine over the parsed pattern, '
+                  'exhaustively over all f + w up to %d characters of character-class representatives -- matches exactly f at the start of '
+                  'f + w (not a shorter prefix, not a run-on to a later quote)' % max_len)
+    c = p.cls('EscapedString', 'models.escaped_string')
+    consts = {k.split('__')[-1]: v.node for k, v in c.attrs.items() if isinstance(v, Const)}
+    em = consts.get('ESCAPE_MAP')
+    if not isinstance(em, ast.Dict) or not all(isinstance(k, ast.Constant) and isinstance(v, ast.Constant) for k, v in zip(em.keys, em.values)):
+        raise AnalysisError('STR-BOUNDARY: __ESCAPE_MAP is not a literal dict')
+    images = sorted({v.value for v in em.values})  # type: ignore[union-attr]
+    pat = consts.get('ESCAPE_PATTERN')
+    if not (isinstance(pat, ast.Call) and norm(pat.func) == 're.compile' and isinstance(pat.args[0], ast.Constant)):
+        raise AnalysisError('STR-BOUNDARY: __ESCAPE_PATTERN is not re.compile(<literal>)')
+    escaped_chars = sorted({chr(cp) for a, b in rx.accepted_chars(rx.from_regex(pat.args[0].value)) for cp in range(a, min(b, a + 64) + 1)})
+    fmt = p.method(c, '_format_value', inherited=False)
+    aff = _affixes(fmt)
+    if aff is None or not aff[0] or not aff[1]:
+        raise AnalysisError('STR-BOUNDARY: cannot read the delimiters EscapedString._format_value writes')
+    pre, suf, _mid = aff
+    rule = p.class_const(c, 'RULE')
+    tname = rule.value if isinstance(rule, ast.Constant) else None
+    if tname not in g.terminals:
+        raise AnalysisError(f'STR-BOUNDARY: terminal {tname} not in the grammar')
+    tp = g.terminals[tname].pattern
+    flags = 0
+    for f_ in getattr(tp, 'flags', ()) or ():
+        flags |= {'i': re.I, 'm': re.M, 's': re.S, 'x': re.X, 'u': re.U, 'l': re.L}.get(f_, 0)
+    matcher = rx.BTMatcher(tp.to_regexp(), flags)
+    # formatter language: delimiters around (unescaped character | backslash + image)*
+    body = '(?:[^%s]|\\\\[%s])*' % (''.join(_esc(ch) for ch in escaped_chars), ''.join(_esc(ch) for ch in images))
+    fnfa = rx.from_regex(''.join(_esc(ch) for ch in pre) + body + ''.join(_esc(ch) for ch in suf), re.S)
+    bounds = sorted(matcher.boundaries() | fnfa.boundaries() | {10, 11})
+    cands = [chr(rx._pretty(bounds[i], bounds)) for i in range(len(bounds) - 1)]
+    # characters that no test of the pattern and no transition of the formatter automaton tells apart are one symbol
+    fsets = [cs for lst in fnfa.trans.values() for cs, _ in lst]
+    by_sig: dict[tuple, str] = {}
+    for ch in cands:
+        sig = matcher.signature(ch) + tuple(any(a <= ord(ch) <= b for a, b in cs) for cs in fsets)
+        by_sig.setdefault(sig, ch)
+    letters = sorted(by_sig.values())
+    if len(letters) > 9:
+        raise AnalysisError(f'STR-BOUNDARY: {len(letters)} character classes; the exhaustive evaluation would be too large')
+    # all f in F up to max_len - 1, by breadth-first search over the formatter automaton
+    fs: list[str] = []
+    todo = [(fnfa.closure([fnfa.start]), '')]
+    while todo:
+        cur, w = todo.pop()
+        if fnfa.accept in cur:
+            fs.append(w)
+        if len(w) >= max_len - 1:
+            continue
+        for ch in letters:
+            nx = fnfa.step(cur, ord(ch))
+            if nx:
+                todo.append((nx, w + ch))
+    n = 0
+    problem = None
+    import itertools as _it
+    for f in sorted(fs, key=lambda s: (len(s), s)):
+        for k in range(0, max_len - len(f) + 1):
+            for w in _it.product(letters, repeat=k):
+                text = f + ''.join(w)
+                n += 1
+                end = matcher.match_end(text)
+                if end != len(f) and problem is None:
+                    problem = (f, ''.join(w), end)
+        if problem:
+            break
+    if len(fs) < 20 or (n < 2000 and problem is None):
+        raise AnalysisError(f'STR-BOUNDARY: only {len(fs)} formatted strings / {n} texts evaluated')
+    site = f'beancount.lark:{tname}'
+    if problem:
+        f, w, end = problem
+        got = 'no match' if end is None else f'{(f + w)[:end]!r}'
+        ctx.fail(rid, site, 'stops at the closing quote',
+                 f'{tname} /{tp.to_regexp()}/ on the text {f + w!r}: EscapedString writes {f!r} (a value ending in a backslash ends in an even run of '
+                 f'backslashes before the closing quote) and the terminal matches {got} instead of {f!r} -- the string token runs on to a later '
+                 f'quote (or stops early), so a constructed model with such a string followed by another string prints text that parses '
+                 f'differently or not at all', 'autobean_refactor/beancount.lark')
+    else:
+        ctx.ok(rid, site, f'{len(fs)} formatted strings x continuations = {n} texts over {len(letters)} character classes, length <= {max_len}')
